@@ -496,3 +496,13 @@ func constOfBody(p *packages.Package, fd *ast.FuncDecl, depth int) *types.Const 
 	}
 	return ResolveConst(p, fd, rets[0].Results[0], depth)
 }
+
+// pkgByPath returns the loaded package with the given import path.
+func (c *Ctx) pkgByPath(path string) *packages.Package {
+	for _, p := range c.All {
+		if p.PkgPath == path {
+			return p
+		}
+	}
+	return nil
+}
